@@ -272,3 +272,16 @@ func mustFlowStates(g *cfg.CFG, spec FlowSpec) map[ast.Node]bool {
 	_ = t
 	return out
 }
+
+// mustFlowNilAware: number of exits of g reached without a gate node and without leaving through an edge accepted by edgeOK.
+func mustFlowNilAware(g *cfg.CFG, gate func(ast.Node) bool, edgeOK func(cond ast.Expr, succ int) bool) int {
+	hits := mustFlow(g, FlowSpec{
+		Gate: gate,
+		EdgeGate: func(b *cfg.Block, succ int) bool {
+			cond := condOf(b)
+			return cond != nil && edgeOK(cond, succ)
+		},
+		AtReturn: true,
+	})
+	return len(hits)
+}
